@@ -55,3 +55,41 @@ Definition run_oms (c : span_cfg) (lib : list amp) (pref_ch : Q)
 Definition run_net (c : span_cfg) (lib : list amp) (pref_ch : Q)
                    (l : list (Q * Q * Q * Q * startk * endk * list relem)) : string :=
   join "~" (map (run_oms c lib pref_ch) l).
+
+(* ---------- multiband OMS ---------- *)
+Definition bi (bmin bmax pref_total : Q) : bandinfo := mkBI bmin bmax pref_total.
+Definition grp (n : string) (allowed : bool) (members : list string) : mgroup := mkG n allowed members.
+Definition mrf (lin : Q) (cin cout : option Q) (att : Q) (lc : list Q) : rmelem := RMFib (mkRF lin cin cout att lc None).
+Definition mrfu (l : Q) : rmelem := RMFus l.
+Definition ban (variety : string) (gain dp ovoa ivoa : option Q) (nfs : list (string * Q)) : ampn :=
+  mkAN (mkNode variety []) gain dp ovoa ivoa nfs.
+Definition mra (variety : string) (vlist : list string) (amps : list ampn) : rmelem := RMA (mkNode variety vlist) amps.
+Definition moms (bis : list bandinfo) (p0 : Q) (s : startk) (e : endk) (l : list rmelem)
+  : list bandinfo * Q * startk * endk * list rmelem := (bis, p0, s, e, l).
+
+Fixpoint mfibers_s (l : list melem) : list string :=
+  match l with
+  | [] => []
+  | MFib f :: t => join "|" [q_s (f_att f); q_s (f_cin f); q_s (f_cout f); oq_s (f_dsl f)] :: mfibers_s t
+  | _ :: t => mfibers_s t
+  end.
+
+(* fibres # node1 & node2 ... (each node: band1 ^ band2 ...) # per band walks (band1 ^ band2) *)
+Definition run_moms (c : span_cfg) (lib : list amp) (groups : list mgroup) (pref_ch : Q)
+                    (o : list bandinfo * Q * startk * endk * list rmelem) : string :=
+  let '(bis, p0, s, e, raw) := o in
+  let ch := mprep c raw in
+  append (join ";" (mfibers_s ch))
+    (append "#"
+       (match design_mb c lib groups bis pref_ch p0 s e ch with
+        | Err e => append "E:" e
+        | Ok dss =>
+            append (join "&" (map (fun ds => join "^" (map damp_s ds)) dss))
+              (append "#"
+                 (join "^" (map (fun k => join ";" (map q_s (walk p0 (proj_band k ch) (proj_ds k dss))))
+                                (seq 0 (length bis)))))
+        end)).
+
+Definition run_mnet (c : span_cfg) (lib : list amp) (groups : list mgroup) (pref_ch : Q)
+                    (l : list (list bandinfo * Q * startk * endk * list rmelem)) : string :=
+  join "~" (map (run_moms c lib groups pref_ch) l).
